@@ -4,7 +4,7 @@ from pathlib import Path
 
 import histgen
 from vlib import Check
-from checks.tables_common import table_models, generated, run_tables, growth_histories
+from checks.tables_common import table_models, generated, run_tables, growth_histories, random_table_histories
 from checks.exporter_common import run_histories, rng_for
 
 
@@ -12,13 +12,16 @@ def run(tier):
     chk = Check("C11", tier, "model_checking")
     chk.rule = ("model: all histories <= MaxOps of add/clear/copy/destroy; (G) generated histories without copies replayed on "
                 "each of the nine real tables with values built in fresh objects (pairs differing in exactly one optional "
-                "member); (T) growth sequences of thousands of adds from small and large domains; exporter streams across "
+                "member); longer random histories with copies onto used blocks; (T) growth sequences of thousands of adds from small and large domains; exporter streams across "
                 "many block flushes with TLC checking every written table for duplicates and index closure")
     chk.assumptions = ["TLC + CommunityModules", "driver value mapping id -> concrete table value (harness/tbl_driver.cpp)"]
     table_models(chk, tier)
     hs = generated(chk, 4, "{0, 1, 2, 5}", need_copy=False, limit=1500 if tier == "quick" else None)
     rng = random.Random(chk.seed * 11 + 3)
     hs += growth_histories(rng, 18 if tier == "quick" else 180, 1500 if tier == "quick" else 4000)
+    # longer histories with copies: additions to a block that was assigned another block's content after it had been
+    # used itself (indices must be those of the content it holds now)
+    hs += random_table_histories(rng, 60 if tier == "quick" else 1200, 24)
     m1 = run_tables(chk, hs, {"C11"}, label="c11")
     # isolation between consecutive blocks + closure/duplicates in written tables (independent parse)
     rng2 = rng_for(chk, 11)
